@@ -15,6 +15,7 @@ All statements are for every number of nodes `n`, every coordinate vector and al
 (hence every finite float); nothing is bounded.
 -/
 import OdlModel.Lemmas.Partition
+import OdlModel.Gen.UniformGrid
 
 open OdlModel.Partition
 
@@ -88,6 +89,17 @@ theorem C14.bdry_fraction_formula (P : Part1) (hv : Valid P) (hn : 2 ≤ P.n) :
   · simp only []; field_simp; ring
   · intro h; simp only [h, sub_self, zero_div, add_zero]
   · intro h; simp only [h, sub_self, zero_div, add_zero]
+
+/-- Translator tie: the node-placement table read from the SOURCE of `uniform_grid_fromintv`
+(`Gen/UniformGrid.lean`, regenerated on every run) is the table of the model, for all four flag
+combinations and all `lo, hi, n`.  A changed coefficient or swapped branch in the source makes
+this theorem fail. -/
+theorem C14.extracted_table_is_model (lo hi : Rat) (n : Nat) (bl br : Bool) :
+    (OdlModel.Gen.UniformGrid.gmin bl br).eval lo hi n = gminOf lo hi n bl br ∧
+    (OdlModel.Gen.UniformGrid.gmax bl br).eval lo hi n = gmaxOf lo hi n bl br := by
+  constructor <;> cases bl <;> cases br <;>
+  simp [OdlModel.Gen.UniformGrid.gmin, OdlModel.Gen.UniformGrid.gmax, Off.eval, gminOf, gmaxOf] <;>
+  ring
 
 /-- `uniform_partition_fromintv` / `uniform_grid_fromintv` place node `i` at
 `lo + (i + [¬bdry_l]/2) * h` with `h = (hi - lo) / (n - (bl + br)/2)`, for all four flag
@@ -209,6 +221,59 @@ theorem C14.nonuniform_limits (n : Nat) (c : Nat → Rat) (hn : 2 ≤ n)
       P.bdryFrac = (if bl then 1 / 2 else 1, if br then 1 / 2 else 1) ∧
       P.nodesOnBdry Tol.exact = (bl, br) :=
   nonuniform_default n c hn hm bl br
+
+/-- `partition[[i0, …, ik]]` (list index on an axis) for every strictly increasing list of cell
+numbers: the nodes are the selected nodes, the limits are the left boundary of the first and the
+right boundary of the last selected cell, and the result is a valid partition. -/
+theorem C14.getitem_list (P : Part1) (hv : Valid P) (first : Nat) (rest : List Nat)
+    (hlt : ∀ k ∈ first :: rest, k < P.n) (hinc : (first :: rest).Pairwise (· < ·)) :
+    ∃ Q, P.getList ((first :: rest).map (fun (k : Nat) => (k : Int))) = some Q ∧ Valid Q ∧
+      Q.n = rest.length + 1 ∧ (∀ i, Q.c i = P.c ((first :: rest).getD i 0)) ∧
+      Q.lo = P.bdry first ∧ Q.hi = P.bdry ((first :: rest).getLast (by simp) + 1) :=
+  getList_spec P hv first rest hlt hinc
+
+/-- `byaxis`: for a partition whose axes are valid states,
+* `byaxis[int or slice]` (any set `sel` of selected axes) returns exactly the selected axes, in
+  their original order, each unchanged (the code indexes the other axes with `0` and squeezes
+  them away);
+* `byaxis[k]` and `byaxis[k - ndim]` return axis `k`;
+* `byaxis[[k0, k1, …]]` stacks the named axes in the given order (repetitions allowed). -/
+theorem C14.byaxis_cells (P : Part) (hv : ∀ p ∈ P, Valid p) :
+    (∀ sel : List Nat, byaxisSel P sel =
+      some (((List.range P.length).filter (fun j => sel.contains j)).filterMap (fun j => P[j]?))) ∧
+    (∀ k (hk : k < P.length), byaxisInt P (k : Int) = some [P[k]] ∧
+      byaxisInt P ((k : Int) - P.length) = some [P[k]]) ∧
+    (∀ l : List Nat, (∀ k ∈ l, k < P.length) →
+      byaxisList P (l.map fun (k : Nat) => (k : Int)) = some (l.filterMap fun k => P[k]?)) :=
+  ⟨byaxisSel_spec P hv, byaxisInt_spec P hv, byaxisList_spec P hv⟩
+
+/-- `uniform_partition_fromgrid(grid)` without limits (`n ≥ 2`) is `nonuniform_partition(coords)`
+with default flags (so `C14.nonuniform_limits` applies: natural half-stride margins, fractions
+`(1, 1)`); with both limits given the result is the partition with exactly these limits, accepted
+iff the grid lies inside them. -/
+theorem C14.fromgrid_limits (n : Nat) (c : Nat → Rat) :
+    (2 ≤ n → fromGridAxis n c none none = nonuniformAxis n c none none false false) ∧
+    ∀ a b, fromGridAxis n c (some a) (some b) = Part1.mk? ⟨n, c, a, b⟩ :=
+  ⟨fromGrid_default n c, fromGrid_explicit n c⟩
+
+/-- n-d indexing `partition[i0, i1, …]` reduces to the 1-d theorems, for every number of axes:
+* with one entry per axis (no ellipsis) every axis is indexed independently with its own entry
+  (`getAxis`: `C14.getitem_int` / `C14.getitem_slice` / `C14.getitem_full` apply per axis);
+* fewer entries than axes are filled up with `slice(None)` from the right;
+* one ellipsis stands for exactly the missing number of `slice(None)`. -/
+theorem C14.getitem_nd (P : Part) :
+    (∀ idx : List Idx, idx.length = P.length → Idx.ellipsis ∉ idx →
+      getItem P idx = (List.zip P idx).mapM (fun x => getAxis x.1 x.2)) ∧
+    (∀ idx : List Idx, idx.length < P.length → Idx.ellipsis ∉ idx →
+      normIdx idx P.length =
+        some (idx ++ List.replicate (P.length - idx.length) (Idx.slice none none none))) ∧
+    (∀ pre post : List Idx, pre.length + post.length ≤ P.length → Idx.ellipsis ∉ pre →
+      Idx.ellipsis ∉ post →
+      normIdx (pre ++ Idx.ellipsis :: post) P.length =
+        some (pre ++ List.replicate (P.length - pre.length - post.length) (Idx.slice none none none)
+          ++ post)) :=
+  ⟨getItem_axiswise P, fun idx => normIdx_short idx P.length,
+   fun pre post => normIdx_ellipsis pre post P.length⟩
 
 /-- `insert(index, p1, …, pk)` puts the axes of the inserted partitions, in order, as one block
 before axis `index` and leaves all axes (their cells) unchanged; negative `index` counts from
